@@ -142,7 +142,8 @@ def judge_h5_history(seq, tmpdir):
     model = {}
     for step, (gi, pi, oi) in enumerate(seq):
         g = mk_grid(*H5_GRIDS[gi][:2], H5_GRIDS[gi][2])
-        g = NssGrid(np.asarray(g.data) + np.asarray(step, dtype=g.data.dtype), g.axes, g.axis_names)
+        # (data AND bin values change from write to write: same names, shapes and dtypes, other numbers)
+        g = NssGrid(np.asarray(g.data) + np.asarray(step, dtype=g.data.dtype), [np.asarray(a) + np.asarray(step, dtype=np.asarray(a).dtype) for a in g.axes], g.axis_names)
         path, ow = H5_PATHS[pi], H5_OVERWRITE[oi]
         kw = {} if ow is None else {"overwrite": ow}
         must = ow is True or (ow is None and path not in model) or (ow is False and not model)
